@@ -106,11 +106,11 @@ PROPS = {
         "only the Verus obligation is counted as discharged; Kani results hold for the instantiated types; Miri and the drop accounting are bounded; 'never twice' for safe code rests on Rust's ownership discipline",
         "Verus (one obligation) + Kani/CBMC on the unsafe blocks + Miri-run and native bounded drop accounting + token scan"),
         extras=["unsafe-scan", "kani-reusable-box", "kani-into-shared", "miri"]),
-    "C17": P("proof", ["vector", "transaction", "entry"], [],
+    "C17": P("proof", ["vector", "transaction", "entry"], ["mutators"],
         "Verus proves for every ObservableVector and transaction mutator the plain-vector result and return value, (R-PANIC) that at every panic site (insert/set/remove/entry out of range) nothing has been changed, batched or sent, and that a normal return implies the index was in range; for entry.rs and the transaction entries: next offers the element at the cursor iff in range, set replaces it, remove removes it WITHOUT advancing the borrowed cursor, drop of a borrowed entry advances it by one; and the lemma over that cursor machine: whatever the per-element decisions (keep/set/remove/set-then-remove/stop), every original element is offered exactly once in index order and an early exit leaves the rest untouched.",
         "Rust runs Drop exactly once for an entry not consumed by remove (R-TRAIT: drop/deref are verified as inherent methods); for_each's loop over a caller closure is not under contract",
         VERUS, ["for_each (while-let over a caller-supplied FnMut) is not under contract", "implicit drops are Rust's"]),
-    "C18": P("proof", ["vector"], [],
+    "C18": P("proof", ["vector"], ["diffmap"],
         "Verus proves apply(d, vec) performs the spec change for every variant whenever insert/set/remove are in range (no other stand-in precondition, i.e. no other panic, is reachable), map rebuilds each variant with the closure applied to every contained value (vector_map trusted), and the lemma: for a pure mapping, apply(map(d), map(s)) == map(apply(d, s)); identity mapping gives an equal diff.",
         "vector_map (into_iter().map().collect()) is R-EXT; imbl panics are the stand-in's preconditions",
         VERUS, ["vector_map is trusted (R-EXT)"]),
